@@ -266,6 +266,36 @@ func init() {
 					}
 				}
 			}
+			// every spelling of the root directory as the destination of an entry that is not a directory, with an entry
+			// beneath it (both orders); packager tags that differ from a packager's name in letter case or by a blank (such
+			// an entry is addressed to nobody)
+			for _, p := range pk {
+				for _, sp := range []string{"/", "", ".", "..", "/.", "//", "/a/..", "./", "/./."} {
+					for _, t := range c05Templates(false) {
+						e := t.e
+						e.Dst = sp
+						below := model.Entry{Src: "etc/app.conf", Dst: "/a/x"}
+						if !yield(C05Case{Part: "root-spellings", Packager: p, List: []model.Entry{e, below}}) {
+							return
+						}
+						if !yield(C05Case{Part: "root-spellings", Packager: p, List: []model.Entry{below, e}}) {
+							return
+						}
+					}
+				}
+				for _, tag := range []string{"DEB", "Deb", "Rpm", "RPM", "apk ", " deb", "deb ", "APK", "IPK", "ArchLinux"} {
+					for _, t := range c05Templates(false) {
+						e := t.e
+						e.Dst, e.Packager = "/opt/tagged", tag
+						if !yield(C05Case{Part: "odd-tags", Packager: p, List: []model.Entry{e}}) {
+							return
+						}
+						if !yield(C05Case{Part: "odd-tags", Packager: p, List: []model.Entry{e, {Src: "etc/app.conf", Dst: "/opt/tagged"}}}) {
+							return
+						}
+					}
+				}
+			}
 			// large shapes: a directory of 1500 files, 2000 files in 20 directories, a chain of 40 directories (as source
 			// and as destination), same-named files of sibling directories sent to one directory
 			deepDst := "/srv"
